@@ -142,10 +142,26 @@ cdef int sw_nested(int x, int y) except? -1:
     elif x == 2 or x == 3:
         return 20 if y not in (7, 8) else 21
     return 0
+
+cdef int and_of_eq(int x) except? -1:
+    if x == 1 and x == 2:
+        return 1
+    elif x == 4 and x in (5, 6):
+        return 2
+    elif x == 0 or (x == 7 and x == 8):
+        return 3
+    return 0
+
+cdef int and_of_in(long x) except? -1:
+    if x in (1, 2) and x in (2, 3):
+        return 1
+    elif x not in (1, 2) or x not in (2, 3):
+        return 2
+    return 0
 """
 
 FUNCS = ["sw1", "sw2", "sw3", "sw4", "swu", "sw_and", "chain3", "chain4", "chain_eq", "inl", "ninl", "in_vars", "nin_vars",
-         "in_single", "cond_mix", "ne_and", "mix_and", "in_bytes", "sw_nested"]
+         "in_single", "cond_mix", "ne_and", "mix_and", "in_bytes", "sw_nested", "and_of_eq", "and_of_in"]
 
 
 def _ensures(name):
